@@ -20,16 +20,13 @@ class Oracle(C01.Oracle):
 
 def make_jobs(tier, seed, build):
     jobs = []
-    nmax = 4 if tier == "quick" else 5
+    nmax = 3 if tier == "quick" else 4
     for gname in GRAMMARS:
         g = CORPUS[gname]
-        for n in range(0, nmax + 1):
-            for shape in tok.all_shapes(n, g.decl):
-                if n >= 4 and "word" not in shape:
-                    continue  # without a plain word no command can be entered: covered by n <= 3
-                if n == 5 and shape.count("word") < 2:
-                    continue
-                jobs.append({"id": "%s:%s" % (gname, ",".join(shape)), "grammar": gname, "shape": shape, "fs": "none"})
+        for shape in tok.all_shapes_by_words(nmax, g.decl):
+            if len(shape) >= 4 and "word" not in shape:
+                continue  # without a plain word no command can be entered: covered by the smaller sizes
+            jobs.append({"id": "%s:%s" % (gname, ",".join(shape)), "grammar": gname, "shape": shape, "fs": "none"})
     return jobs
 
 
@@ -38,6 +35,6 @@ def run_job(job, build):
 
 
 def finish(results, jobs, build, out, tier, seed, wall):
-    nmax = 4 if tier == "quick" else 5
+    nmax = 3 if tier == "quick" else 4
     return finish_tok(PROP, results, jobs, build, out, tier, seed, wall, Oracle(), CORPUS,
-                      {"items": "0..=%d (4+: shapes with a plain word)" % nmax, "depth": 2, "grammars": len(GRAMMARS)})
+                      {"argv_words": "0..=%d (up to twice as many items; 4 words: shapes with a plain word)" % nmax, "depth": 2, "grammars": len(GRAMMARS)})
